@@ -190,3 +190,91 @@ Proof.
   destruct ants_cancelled_parent_witness_l as (s & H1 & H2 & H3 & H4 & H5 & H6 & _ & H8 & H9 & _).
   exists s. repeat split; try assumption. vm_compute. tauto.
 Qed.
+
+(* ------------------------------------------------------------------------------------------------
+   The STEP model (D20): coq/models/AntsSteps.v -- one step per yield site of ants/verif_on.go
+   (Send's len test and enqueue, the two loops' selects, sendInnerCallback, the handler, the
+   ctx1.Done() test, the send on the per-attempt channel, the dispatcher's select, the two stores,
+   cancel, the read of err, the error callback, wg.Done, Get2's wg.Wait).  It is stepped against the
+   real pool by the stream "dispatch-steps" (vlib/c07s.py): the pool's own loops run as logical
+   threads of the cooperative scheduler on the virtual clock, and the schedule decides whether an
+   attempt finishes in time or times out.  ast_reach md n progs s: s is the state after some schedule
+   (list of (thread, choice for a select with two ready branches)) from the initial state with client
+   programs progs, n dispatchers, n inner workers.
+
+   Proved here for ALL pool sizes, programs, handler scripts, schedules and select choices:
+   (a) ants_steps_task_single_holder: a task is held by at most one thread (the client about to enqueue
+       it, or the one dispatcher running it), and is then not in the task channel as well;
+   (b) ants_steps_only_dispatcher_writes: a step changes result/err of task t only if the stepping
+       thread is parked before one of the two stores of runTaskOnce for t -- with (a): only the
+       dispatcher running a task writes its result/err;
+   (c) ants_steps_attempt_channel_le1, ants_steps_inner_send_never_blocks: the per-attempt channel never
+       holds more than one message and the inner worker's send on it is never blocked;
+   (d) ants_steps_orig_late_write_refuted: on the code before d4c0a4b a concrete schedule ends with
+       Get2 having returned (nil, DeadlineExceeded), the error callback having run, and the fields
+       then overwritten with attempt 1's (7, nil); the same schedule on the fixed model keeps the
+       last decision.
+   NOT proved on the step model (the statements hold on every run of the dispatch-steps stream, where
+   the monitors of vlib/c07s.py restate them, and on the event machine Ants.v above):
+     ants_steps_attempts_sequential_bounded (att_natt <= retry; attempt i+1 is created by the step that
+       read the failed decision of attempt i), ants_steps_result_matches (at wg.Done the fields hold
+       the last element of att_decided, which is the first decision with err = 0 or the retry-th one,
+       and each decision is (nil, DeadlineExceeded) or the pair its handler returned),
+     ants_steps_get2_after_decision (Get2 returns only in a state with att_done = true, after the last
+       store and the error callback) -- only its first half is immediate from the step function (the
+       AstGetWait step is blocked unless att_done). *)
+From Got Require Import AntsSteps AntsStepsProofs RaceAnts RaceAntsProofs.
+
+Theorem ants_steps_task_single_holder :
+  forall md n progs s i j pci pcj t,
+    ast_reach md n progs s ->
+    ast_pc_of s i = Some pci -> ast_pc_task pci = Some t ->
+    ast_pc_of s j = Some pcj -> ast_pc_task pcj = Some t -> i = j.
+Proof. exact ast_steps_task_single_holder. Qed.
+Print Assumptions ants_steps_task_single_holder.
+
+Theorem ants_steps_held_task_not_queued :
+  forall md n progs s i pci t,
+    ast_reach md n progs s -> ast_pc_of s i = Some pci -> ast_pc_task pci = Some t -> ~ In t (ast_tchan s).
+Proof. exact ast_steps_task_not_queued. Qed.
+Print Assumptions ants_steps_held_task_not_queued.
+
+Theorem ants_steps_only_dispatcher_writes :
+  forall n progs s tid hint th t x x',
+    ast_reach AstFixed n progs s ->
+    nth_error (ast_thr s) tid = Some th ->
+    nth_error (ast_tasks s) t = Some x ->
+    nth_error (ast_tasks (fst (fst (ast_step AstFixed n s tid hint)))) t = Some x' ->
+    (att_res x', att_err x') <> (att_res x, att_err x) ->
+    (exists a i v e, ath_pc th = AstDStoreRes t a i v e) \/ (exists a i, ath_pc th = AstDStoreTo t a i).
+Proof. exact ast_steps_only_dispatcher_writes. Qed.
+Print Assumptions ants_steps_only_dispatcher_writes.
+
+Theorem ants_steps_attempt_channel_le1 :
+  forall md n progs s a x,
+    ast_reach md n progs s -> nth_error (ast_atts s) a = Some x -> (length (ata_chan x) <= 1)%nat.
+Proof. exact ast_steps_attempt_chan_le1. Qed.
+Print Assumptions ants_steps_attempt_channel_le1.
+
+Theorem ants_steps_inner_send_never_blocks :
+  forall md n progs s tid th a v e d,
+    ast_reach md n progs s -> nth_error (ast_thr s) tid = Some th -> ath_pc th = AstISend a v e d ->
+    ast_is_blocked md n s tid = false.
+Proof. exact ast_steps_inner_send_never_blocks. Qed.
+Print Assumptions ants_steps_inner_send_never_blocks.
+
+(* (res, err, wg done, decisions of the dispatcher, error-callback arguments) of the one task of the scenario
+   ra_lw_progs / ra_lw_sched (models/RaceAnts.v): ra_lw_final md = the state after the whole schedule;
+   after 23 steps Get2 has returned, the last two steps are the inner callback that was parked after its ctx1.Done() test *)
+Theorem ants_steps_orig_late_write_refuted :
+  (ra_task_view (ra_lw_final AstOrig) = [(7, 0, true, [(0, -1); (0, -1)], [-1])] /\
+   ra_task_view (ast_run AstOrig 1 (ast_init 1 ra_lw_progs) (firstn 23 ra_lw_sched)) = [(0, -1, true, [(0, -1); (0, -1)], [-1])]) /\
+  ra_task_view (ra_lw_final AstFixed) = [(0, -1, true, [(0, -1); (0, -1)], [-1])].
+Proof. exact (conj ra_orig_late_write ra_fixed_no_late_write). Qed.
+Print Assumptions ants_steps_orig_late_write_refuted.
+
+(* non-vacuity: the scenario is a reachable state of the step model in which a task went through two attempts *)
+Example c07_steps_nonvacuous :
+  ast_reach AstFixed 1 ra_lw_progs (ra_lw_final AstFixed) /\
+  map att_natt (ast_tasks (ra_lw_final AstFixed)) = [2%nat] /\ ast_now (ra_lw_final AstFixed) = 2000.
+Proof. split; [exists ra_lw_sched; unfold ra_lw_final; exact eq_refl|]. split; vm_compute; reflexivity. Qed.
